@@ -1015,6 +1015,8 @@ def strip_comments_strings(src):
 
 def toplevel_function_names(path):
     src = strip_comments_strings(open(path, encoding="utf-8", errors="replace").read())
+    # platform alternatives (#ifdef _MSC_VER A #else B #endif) open the same brace twice: keep the non-Windows branch
+    src = re.sub(r"#ifdef _MSC_VER\n(.*?)#else\n(.*?)#endif", lambda mm: "\n" * (mm.group(1).count("\n") + 1) + mm.group(2) + "\n", src, flags=re.S)
     # drop preprocessor lines
     src = "\n".join("" if l.lstrip().startswith("#") else l for l in src.split("\n"))
     names = set()
@@ -1086,7 +1088,7 @@ def parse_tu(path, mode="lib", hdig=None):
         except Exception:
             pass
     rel = path.replace(REPO + "/", "")
-    if mode == "kernel":
+    if mode in ("kernel", "binding"):
         names = sorted(toplevel_function_names(path))
         filters = []
         if any("awkward_" in nm for nm in names) or not names:
@@ -1102,8 +1104,16 @@ def parse_tu(path, mode="lib", hdig=None):
                 filters.append("awkward_")
     funcs, classes, unknown, errors = [], {}, set(), []
     seen = set()
-    for filt in filters:
-        objs, errs = run_clang_json(path, filt)
+    dumps = None
+    if mode == "binding" and len(filters) > 2:
+        # one clang run per top-level name: run them side by side (the process is I/O- and subprocess-bound)
+        from concurrent.futures import ThreadPoolExecutor
+        with ThreadPoolExecutor(6) as tex:
+            dumps = list(tex.map(lambda f_: run_clang_json(path, f_), filters))
+    for fi, filt in enumerate(filters):
+        objs, errs = dumps[fi] if dumps is not None else run_clang_json(path, filt)
+        if dumps is not None:
+            dumps[fi] = None
         errors.extend(errs)
         annotate(objs)
         ix = DeclIndex()
@@ -1114,7 +1124,7 @@ def parse_tu(path, mode="lib", hdig=None):
             if k in seen:
                 continue
             seen.add(k)
-            if mode == "kernel" and f["file"] != rel:
+            if mode in ("kernel", "binding") and f["file"] != rel:
                 continue
             funcs.append(f)
         for k, v in cs.items():
@@ -1169,6 +1179,11 @@ def parse_many(paths_modes, jobs=None):
 
 def kernel_files():
     d = os.path.join(REPO, "src", "cpu-kernels")
+    return sorted(os.path.join(d, f) for f in os.listdir(d) if f.endswith(".cpp"))
+
+
+def binding_files():
+    d = os.path.join(REPO, "src", "python")
     return sorted(os.path.join(d, f) for f in os.listdir(d) if f.endswith(".cpp"))
 
 
